@@ -239,6 +239,8 @@ class PathTable:
                             self._row_store(e, vv, l, T)
             else:
                 l.events.append(("store", unparse(t), v, st))
+                if isinstance(t, ast.Attribute) and isinstance(t.value, ast.Name) and t.value.id in l.env and t.value.id not in ("self", "cls"):
+                    l.env[f"{t.value.id}.{t.attr}"] = v         # field of a local object: later reads of x.attr see it
                 if isinstance(t, ast.Subscript):
                     try:
                         l.store_at[id(st)] = (T.tr(t.value), T._index(t.slice))
@@ -526,9 +528,21 @@ def _pt_rows(self, st: ast.For, T: Translator):
             for i in range(n):
                 row = []
                 for a, c in zip(it.args, cols):
-                    row.append(T.tr(c[i]) if c is not None else sp.Function("getitem")(T.tr(a), sp.Integer(i)))
+                    if c is not None:
+                        row.append(T.tr(c[i]))
+                    else:
+                        av = T.tr(a)
+                        row.append(av[i] if isinstance(av, sp.Tuple) and i < len(av) else sp.Function("getitem")(av, sp.Integer(i)))
                 rows.append(sp.Tuple(*row))
             return rows
+    # a name / expression whose value is a known short display (e.g. `pairs = list(zip(a, (x, y)))`)
+    try:
+        itv = T.tr(it) if isinstance(it, (ast.Name, ast.Call)) else None
+    except AnalysisError:
+        itv = None
+    # (a one-element display such as `members = [obj]` is left as a loop: rules that sweep over "the members" read it as one)
+    if isinstance(itv, sp.Tuple) and 2 <= len(itv) <= 8 and (not isinstance(it, ast.Call) or call_name(it) in ("zip", "list", "tuple")):
+        return list(itv)
     return None
 
 
@@ -756,13 +770,18 @@ def _pt_map_loop(self, st: ast.For, leaf: Leaf, depth: int) -> Optional[List[Lea
         elif isinstance(it, ast.Call) and call_name(it) == "range" and len(it.args) == 1 and isinstance(st.target, ast.Name) \
                 and isinstance(it.args[0], ast.Call) and call_name(it.args[0]) == "len" and len(it.args[0].args) == 1:
             idx_name, elt_names, seq = st.target.id, None, T.tr(it.args[0].args[0])
+        elif isinstance(st.target, (ast.Name, ast.Tuple)) and not (isinstance(it, ast.Call) and call_name(it) in ("range", "enumerate", "zip")):
+            # `for x in S: ...; L.append(g(x))` - no index: only local lists may be filled
+            idx_name, elt_names, seq = None, st.target, T.tr(it)
         else:
             return None
     except AnalysisError:
         return None
     IDX = sp.Symbol("<i>", integer=True)
     entry = self._copy(leaf)
-    entry.env[idx_name] = IDX
+    if idx_name is not None:
+        entry.env[idx_name] = IDX
+    lists_before = {k: v for k, v in leaf.env.items() if isinstance(v, sp.Tuple) and len(v) == 0}
     item = sp.Function("item")
     if isinstance(elt_names, ast.Name):
         entry.env[elt_names.id] = ELT
@@ -780,8 +799,15 @@ def _pt_map_loop(self, st: ast.For, leaf: Leaf, depth: int) -> Optional[List[Lea
     b = body[0]
     ALL = sp.Function("slice")(sp.Symbol("None"), sp.Symbol("None"), sp.Symbol("None"))
     filled: Dict[str, sp.Expr] = {}
+    fields: Set[str] = set()
     for e in b.events[n_ev:]:
-        if e[0] != "store":
+        if e[0] == "call" and e[1].endswith(".append") and e[1][:-7] in lists_before:
+            continue            # accounted for below: the list grew by one element
+        if e[0] == "store" and isinstance(e[3], ast.Assign) and isinstance(e[3].targets[0], ast.Attribute) and isinstance(e[3].targets[0].value, ast.Name) \
+                and f"{e[3].targets[0].value.id}.{e[3].targets[0].attr}" in b.env and e[3].targets[0].value.id in leaf.env:
+            fields.add(f"{e[3].targets[0].value.id}.{e[3].targets[0].attr}")
+            continue            # a field of a local object set in every iteration (its readers in the body saw the new value)
+        if e[0] != "store" or idx_name is None:
             return None
         site = store_site(b, e)
         if site is None:
@@ -799,7 +825,16 @@ def _pt_map_loop(self, st: ast.For, leaf: Leaf, depth: int) -> Optional[List[Lea
         if v.has(IDX):
             return None
         filled[name] = v
-    if not filled:
+    grown: Dict[str, sp.Expr] = {}
+    for nm in lists_before:
+        after = b.env.get(nm)
+        if isinstance(after, sp.Tuple) and len(after) == 1:
+            if after[0].has(IDX):
+                return None
+            grown[nm] = after[0]
+        elif not (isinstance(after, sp.Tuple) and len(after) == 0):
+            return None
+    if not filled and not grown:
         return None
     # the filled arrays must not be read in the body (each element is written once, from the element of S only)
     for x in st.body:
@@ -815,6 +850,10 @@ def _pt_map_loop(self, st: ast.For, leaf: Leaf, depth: int) -> Optional[List[Lea
         out.env[nm] = sp.Symbol(nm, real=True)
     for name, v in filled.items():
         out.env[name] = SEQ(v, seq)
+    for name, v in grown.items():
+        out.env[name] = SEQ(v, seq)
+    for fld in fields:
+        out.env[fld] = sp.Symbol(f"<{fld} after the loop>")
     return [out]
 
 
@@ -828,6 +867,9 @@ def seq_form(v):
         def step(x):
             if fn(x) in ("list", "tuple", "array", "asarray") and len(x.args) >= 1 and fn(x.args[0]) == "SEQ":
                 return x.args[0]
+            if fn(x) == "reshape" and len(x.args) == 3 and fn(x.args[0]) == "SEQ" and fn(x.args[1]) == "len" \
+                    and x.args[1].args[0] in (x.args[0], x.args[0].args[1]):
+                return x.args[0]            # n rows reshaped to (n, <row length>): the same rows
             if fn(x) == "comp" and len(x.args) == 2 and fn(x.args[1]) == "gen" and len(x.args[1].args) == 2:
                 var, S = x.args[1].args
                 return SEQ(x.args[0].xreplace({var: ELT}), S)
@@ -845,7 +887,7 @@ def seq_form(v):
             if fn(x) in ("item", "getitem") and isinstance(x.args[0], sp.Tuple) and x.args[1].is_Integer and 0 <= int(x.args[1]) < len(x.args[0]):
                 return x.args[0][int(x.args[1])]
             return x
-        v = v.replace(lambda x: fn(x) in ("list", "tuple", "array", "asarray", "comp", "SEQ", "getitem", "item"), step)
+        v = v.replace(lambda x: fn(x) in ("list", "tuple", "array", "asarray", "comp", "SEQ", "getitem", "item", "reshape"), step)
         if v == before:
             break
     # `item` (element of a loop / comprehension target) and `getitem` (subscript) are the same selection
@@ -959,7 +1001,7 @@ def holds(lit, assign) -> Optional[bool]:
                 return None if r is None else (r if isinstance(lit, sp.Eq) else not r)
             return None
         lit_like = lambda x: x.is_Symbol and (x.name.startswith("'") or x.name == "None")   # noqa: E731
-        value_like = lambda x: getattr(getattr(x, "func", None), "__name__", "") in ("lambda_", "dict") or isinstance(x, sp.Tuple) or \
+        value_like = lambda x: getattr(getattr(x, "func", None), "__name__", "") in ("lambda_", "dict", "given") or isinstance(x, sp.Tuple) or getattr(x, "is_Number", False) or \
             (getattr(x, "is_Symbol", False) and x.name.split(".")[0] in ("np", "numpy", "math", "scipy"))   # noqa: E731
         if (lit_like(a) and a.name == "None" and value_like(b)) or (lit_like(b) and b.name == "None" and value_like(a)):
             return isinstance(lit, sp.Ne)          # a function value / container is not None
@@ -972,10 +1014,14 @@ def holds(lit, assign) -> Optional[bool]:
         return None if r is None else not r
     if isinstance(lit, sp.And):
         rs = [holds(x, assign) for x in lit.args]
-        return None if any(r is None for r in rs) else all(rs)
+        if any(r is False for r in rs):
+            return False
+        return None if any(r is None for r in rs) else True
     if isinstance(lit, sp.Or):
         rs = [holds(x, assign) for x in lit.args]
-        return None if any(r is None for r in rs) else any(rs)
+        if any(r is True for r in rs):
+            return True
+        return None if any(r is None for r in rs) else False
     if lit in (sp.true, sp.false):
         return bool(lit)
     return None
@@ -1084,20 +1130,23 @@ def expand_piecewise(lits: List[sp.Expr]) -> List[List[sp.Expr]]:
 
 
 def literals(leaf: Leaf) -> List[sp.Expr]:
-    """Path condition as a list of atomic canonical relations (conjunction); Or-conditions taken false are
-    split into their negated members; other compound conditions stay whole."""
-    out = []
-    for c, t in leaf.conds:
-        if t:
-            if isinstance(c, sp.And):
-                out += [canon_rel(a) for a in c.args]
-            else:
-                out.append(canon_rel(c))
+    """Path condition as a list of atomic canonical relations (conjunction): negations are pushed inward (`not (a or b)` taken
+    true, or `a or b` taken false, are `not a`, `not b`), conjunctions are split; disjunctions that hold stay whole."""
+    out: List[sp.Expr] = []
+
+    def add(c, t: bool):
+        if isinstance(c, sp.Not):
+            add(c.args[0], not t)
+        elif t and isinstance(c, sp.And):
+            for a in c.args:
+                add(a, True)
+        elif not t and isinstance(c, sp.Or):
+            for a in c.args:
+                add(a, False)
         else:
-            if isinstance(c, sp.Or):
-                out += [negate(a) for a in c.args]
-            else:
-                out.append(negate(c))
+            out.append(canon_rel(c) if t else negate(c))
+    for c, t in leaf.conds:
+        add(c, bool(t))
     return out
 
 
